@@ -74,11 +74,26 @@ func (fst *FSTree) buildFilePath(key string, checkKeyLength bool) (string, error
 	}
 	// build filepath
 	dstPath := filepath.Join(fst.basePath, key) // Join also calls Clean()
-	if !strings.HasPrefix(dstPath, fst.basePath) {
+	if !fst.inScope(dstPath) {
 		return "", fmt.Errorf("fstree: key integrity check failed, compiled path is %s", dstPath)
 	}
 	// return
 	return dstPath, nil
+}
+
+// inScope reports whether the given cleaned path is the base path or located
+// within it. Comparing only the string prefix would also accept siblings of
+// the base path that merely share its name as a prefix, eg. "/data-other"
+// for "/data".
+func (fst *FSTree) inScope(path string) bool {
+	if path == fst.basePath {
+		return true
+	}
+	base := fst.basePath
+	if !strings.HasSuffix(base, string(filepath.Separator)) {
+		base += string(filepath.Separator)
+	}
+	return strings.HasPrefix(path, base)
 }
 
 // Get returns a database record.
@@ -197,7 +212,7 @@ func (fst *FSTree) queryExecutor(walkRoot string, queryIter *iterator.Iterator, 
 
 		if info.IsDir() {
 			// skip dir if not in scope
-			if !strings.HasPrefix(path, fst.basePath) {
+			if !fst.inScope(path) {
 				return filepath.SkipDir
 			}
 			// continue
@@ -205,7 +220,7 @@ func (fst *FSTree) queryExecutor(walkRoot string, queryIter *iterator.Iterator, 
 		}
 
 		// still in scope?
-		if !strings.HasPrefix(path, fst.basePath) {
+		if !fst.inScope(path) {
 			return nil
 		}
 
